@@ -32,6 +32,9 @@ var solvers = []solverSpec{
 	{"z3-5.1.0", "z3-new", []string{"-smt2"}},
 	{"z3-4.8.12", "z3", []string{"-smt2"}},
 	{"cvc5-1.0.3", "cvc5", []string{"--lang=smt2", "--produce-models"}},
+	// same solver, relevancy filtering off: decides the scan-loop step lemmas in under a second
+	// where the default configuration wanders for half a minute
+	{"z3-5.1.0-norelevancy", "z3-new", []string{"-smt2", "smt.relevancy=0"}},
 }
 
 var reCvc5Lambda = regexp.MustCompile(`\(lambda `)
